@@ -1,6 +1,6 @@
 """Cold-start concurrency probe (run as a script in a FRESH interpreter by pmv/replay.py).
 
-usage: python -m pmv.coldstart <calls.pkl> <focus index> <nthreads> [strict|ambient|closed]
+usage: python -m pmv.coldstart <calls.pkl> <focus index> <nthreads> [strict|ambient|closed|yield]
 
 calls.pkl holds [(module, attribute, args, kwargs, repr of the result when called alone)].  The library is imported, N
 threads are released on a barrier and make their very first calls at the same moment - first the recorded calls of one
@@ -106,6 +106,24 @@ def main():
                     pass
     barrier = threading.Barrier(nthreads)
     sys.setswitchinterval(1e-6)
+    if len(sys.argv) > 4 and sys.argv[4] == "yield":
+        # yield injection: every thread gives the processor away at random lines INSIDE the library's code (a line trace function
+        # that sleeps for 0 s releases the interpreter lock), so that a window of two lines - clear() ... extend() on a shared
+        # list, "not empty" ... "complete" on a table - is as wide as a thread switch instead of a few nanoseconds
+        import os
+        import random
+        import time
+        lib = os.path.dirname(os.path.realpath(importlib.import_module("pyModeS").__file__)) + os.sep
+        yr = random.Random(focus)
+
+        def _yl(frame, event, arg):
+            if event == "line" and yr.random() < 0.3:
+                time.sleep(0)
+            return _yl
+
+        def _yg(frame, event, arg):
+            return _yl if event == "call" and frame.f_code.co_filename.startswith(lib) else None
+        threading.settrace(_yg)
 
     # one round per function, the focus function first: before each round the threads meet on the barrier again, so that EVERY
     # function gets its very first calls of the process from all threads at the same moment (the calls of a round are the
@@ -115,6 +133,19 @@ def main():
     for nm_ in names[fi:] + names[:fi]:
         grp = [c for c in calls if c[4] == nm_]
         if grp:
+            # thread t starts at the t-th call of the round: another eight "very first calls" in every fresh interpreter
+            import random as _rnd
+            import zlib as _zl
+            _rnd.Random(focus * 7919 + _zl.crc32(nm_.encode())).shuffle(grp)
+            # ... with one call of every KIND of outcome among them (refusal / None / zero / whole number / fraction / other): the
+            # rare kinds are the ones a half-built dispatch table has not got yet
+            seen_k, head, tail_ = set(), [], []
+            for c_ in grp:
+                w_ = c_[3]
+                k_ = (w_[:6], w_.endswith(" None)"), w_.endswith(" 0)") or w_.endswith(" 0.0)"), "." in w_[6:], w_[7:8])
+                (tail_ if k_ in seen_k else head).append(c_)
+                seen_k.add(k_)
+            grp = head + tail_
             rounds.append(grp)
 
     def work(t):
